@@ -79,7 +79,8 @@ def _alarm(signum, frame):
 
 def _run_one(prop: Prop, case):
     signal.signal(signal.SIGALRM, _alarm)
-    signal.alarm(int(prop.case_timeout))
+    # repeating timer: a single CaseTimeout can be swallowed by an `except` inside pandas while a loop keeps spinning
+    signal.setitimer(signal.ITIMER_REAL, float(prop.case_timeout), 2.0)
     try:
         return prop.run_impl(case)
     except CaseTimeout:
@@ -91,7 +92,7 @@ def _run_one(prop: Prop, case):
             return {"__infra__": f"{type(e).__name__}: {e}"}
         return {"__crash__": f"{type(e).__name__}: {e}", "__trace__": traceback.format_exc()[-1500:]}
     finally:
-        signal.alarm(0)
+        signal.setitimer(signal.ITIMER_REAL, 0)
 
 
 _POOL_PROP = None
